@@ -539,6 +539,15 @@ func (x *g) genHTTP(sv *spec.Service, m *spec.Method, idx int) {
 				case where <= 4 && mapPrim && !a.HasDef && x.chance(2, 3):
 					h.Query = append(h.Query, spec.Loc{Attr: a.Name, Wire: wire(queryWire, a.Name)})
 					x.s.AddFeature("query-param", "query-map")
+				case where <= 4 && at.Kind == spec.Bytes && a.Type.Kind != spec.Ref && !a.HasDef && x.chance(1, 2):
+					// bytes travel verbatim in a query parameter or a header
+					if x.chance(1, 2) {
+						h.Query = append(h.Query, spec.Loc{Attr: a.Name, Wire: wire(queryWire, a.Name)})
+						x.s.AddFeature("query-param", "query-bytes")
+					} else {
+						h.Headers = append(h.Headers, spec.Loc{Attr: a.Name, Wire: wire(headerWire, a.Name)})
+						x.s.AddFeature("header", "header-bytes")
+					}
 				case where <= 2 && (prim || arrPrim):
 					h.Query = append(h.Query, spec.Loc{Attr: a.Name, Wire: wire(queryWire, a.Name)})
 					x.s.AddFeature("query-param")
